@@ -359,3 +359,16 @@ bool uniqueid_bad(draco::DecoderBuffer *b, draco::PointCloud *pc) {
   return true;   // AddAttribute has replaced the id by the attribute index
 }
 }  // namespace verif_control
+
+// ---- IDENTITY-SIZE control ---------------------------------------------------------------------------
+#include "draco/attributes/point_attribute.h"
+namespace verif_control {
+bool idsize_bad(draco::DecoderBuffer *b, draco::PointCloud *pc) {
+  uint32_t num_points;
+  if (!b->Decode(&num_points)) return false;
+  draco::PointAttribute *att = pc->attribute(0);
+  att->Reset(num_points);            // never compared with pc->num_points()
+  att->SetIdentityMapping();
+  return true;
+}
+}  // namespace verif_control
